@@ -8,6 +8,8 @@ import itertools
 from vlib.common import *
 
 WS = set(chr(c) for c in [0x20, 9, 10, 11, 12, 13, 0x85, 0xA0, 0x1680, 0x2028, 0x2029, 0x202F, 0x205F, 0x3000] + list(range(0x2000, 0x200B)))
+# several of these have 0x85 / 0xA0 bytes in their UTF-8 encoding (white space when bytes are read as Latin-1)
+PLAIN_ALPHA = ["a", "b", "/", "-", "\\", "$", "{", "=", ",", "\u00e0", "\u00c5", "\u4f60", "\u597d", "\u2026", "\u20ac", "\u00e9", "\u0105", "\u0160", "\U0001f600", "\u0100"]
 ALPHA = [" ", "\t", '"', "'", "\\", "-", "$", "{", "}", "a", "b", "I", "L", "\u00e9", "\u4e16", "\u00a0", "\u3000", "\n", ",", "="]
 
 
@@ -206,7 +208,13 @@ printf '%s\\n' "$out"
         cases.append(("check", line, gotool_eval(ctx, fl, exprs, si), (fl, exprs)))
     for i in range(n):
         k = i % 10
-        if k in (0, 1):      # documented double-quote form
+        if k == 0 and i % 20 == 0:      # unquoted words (theorem parse_plain): no white space, no quote characters, anything else
+            a = []
+            for _ in range(rng.randint(0, 5)):
+                w = rstr(rng, 8, alpha=PLAIN_ALPHA)
+                a.append(w if w else rng.choice(PLAIN_ALPHA))
+            cases.append(("parse-rt", "parse " + hexs(" ".join(a)), [x.encode() for x in a], a))
+        elif k in (0, 1):      # documented double-quote form
             a = [rstr(rng, 12) for _ in range(rng.randint(0, 5))]
             cases.append(("parse-rt", "parse " + hexs(quote(a)), [x.encode() for x in a], a))
         elif k == 2:         # single-quote form
@@ -229,7 +237,7 @@ printf '%s\\n' "$out"
             fl = []
             for _ in range(rng.randint(0, 5)):
                 c = rng.choice(["I", "L", "l", "D", "-", "W", "x"])
-                content = rstr(rng, 8, alpha=[" ", "\t", "\\", "-", "a", "b", "/", "é", " ", "="])
+                content = rstr(rng, 8, alpha=[" ", "\t", "\\", "-", "a", "b", "/", "é", " ", "=", '"', "'", '"', "$", "("])
                 if rng.random() < 0.8:
                     content = content.lstrip("-").rstrip("\\ \t ")
                 fl.append("-" + c + content)
@@ -281,7 +289,7 @@ printf '%s\\n' "$out"
             # well-formed twin with an expectation computed here, independently of the Lean model:
             # literals, ${NAME}/$NAME references and $(pkg-config words) each contribute exactly their value
             # values may themselves look like references: os.Expand inserts them verbatim, never re-expands (theorem expandEnv_render)
-            kv2 = {"A": rng.choice(["/opt/a", "x", "", "$PREFIX", "${X_1}", "a$"]), "PREFIX": rng.choice(["/usr", "/o p", "$A"]), "X_1": "-lz"}
+            kv2 = {"A": rng.choice(["/opt/a", "x", "", "$PREFIX", "${X_1}", "a$", "$(arch)", "-L$(PREFIX)/lib"]), "PREFIX": rng.choice(["/usr", "/o p", "$A", "$(pkg-config --libs foo)"]), "X_1": "-lz"}
             txt, val, cfg = "", "", False
             for _ in range(rng.randint(1, 5)):
                 r = rng.random()
